@@ -61,6 +61,33 @@ def main():
     e6 = copy.deepcopy(ev)
     e6[2]["out"] = ["raise", "valueerror", "ValueError"]
     expect("6. a wrong outcome is rejected by out/add", clauses(I, e6), lambda g: "out/add" in g)
+    # files (spec/System.tla): write, change the source, read back -- the file is a snapshot of the source when written
+    I2 = impl.Interner()
+    w = impl.World(I2, random.Random(2), probe_cap=6, full_n=0)
+    w.new([{"p": "GO", "u": "http://obo/GO_", "ps": ["go"], "pat": "^\\d{7}$"}, {"p": "OBO", "u": "http://obo/"}])
+    w.write(1, "epm", False, False)
+    w.add(1, {"p": "GO", "u": "http://obo/GO_", "ps": ["gomf"]}, mg=True)
+    w.read(1)
+    w.write(1, "jsonld", True, True)
+    w.read(2)
+    w.cleanup()
+    fv = w.events
+    focus = ("C10", "C14")
+    expect("7. an unmodified history with files is accepted", clauses(I2, fv, focus), lambda g: g == [])
+    e8 = copy.deepcopy(fv)
+    conv = e8[3]["convs"][-1]                      # the converter read back from the EPM file ...
+    conv["recs"][0]["ps"].append(I2("gomf"))      # ... claims the synonym merged into the source AFTER the file was written
+    expect("8. a read that shows the CURRENT source instead of the snapshot is rejected by post/read/recs and mon/C14/epm", clauses(I2, e8, focus),
+           lambda g: "post/read/recs" in g and "mon/C14/epm" in g)
+    e9 = copy.deepcopy(fv)
+    full = next(copy.deepcopy(e["convs"][0]) for e in reversed(fv[:1]) if "same" not in e["convs"][0])
+    full["pat"] = []
+    e9[1]["convs"][0] = full                       # the write event leaves the source without its pattern index
+    expect("9. a write that changes its source converter is rejected by frame/write/pat", clauses(I2, e9, focus), lambda g: "frame/write/pat" in g)
+    e10 = copy.deepcopy(fv)
+    e10[5]["convs"][-1]["pm"] = e10[5]["convs"][-1]["pm"][:-1]      # the JSON-LD read-back lost a prefix
+    expect("10. a read-back that lost a prefix is rejected by post/read/pm and mon/C14/jsonld", clauses(I2, e10, focus),
+           lambda g: "post/read/pm" in g and "mon/C14/jsonld" in g)
     return 0 if ok else 1
 
 
